@@ -336,12 +336,13 @@ def nontrivial(case):
 # ---------------------------------------------------------------------------------------------
 # tool level
 class Tool:
-    def __init__(self, name, argv, outputs, stdin=None, stdout=None, binary=None, prepare=None, focus=None):
+    def __init__(self, name, argv, outputs, stdin=None, stdout=None, binary=None, prepare=None, focus=None, cap=None):
         self.name, self.argv, self.outputs, self.stdin, self.stdout, self.binary = name, argv, outputs, stdin, stdout, binary
         self.prepare = prepare
         # focus: in the quick tier enumerate only these syscall kinds (the configuration differs from an already fully
         # enumerated one only in how its input is read); the thorough tier enumerates everything
         self.focus = focus
+        self.cap = cap          # quick-tier number of call indices per syscall kind (default 12)
 
 
 def pruned_arpa(rng, order, nchains):
@@ -422,6 +423,10 @@ def make_inputs(ctx, d):
     with open(os.path.join(d, "bigvocab.txt"), "w") as f:
         for i in range(3):
             f.write(" ".join(rng.choice(tw[i * 5:i * 5 + 10] + ["filler%d" % rng.below(4000)]) for _ in range(1400)) + "\n")
+    # a phrase vocabulary (tab separated phrases, one sentence per line) that needs several reads of its stream
+    with open(os.path.join(d, "phrases.txt"), "w") as f:
+        for i in range(4):
+            f.write("\t".join(" ".join(rng.choice(tw + ["filler%d" % rng.below(4000)]) for _ in range(rng.range(1, 3))) for _ in range(550)) + "\n")
     # SRI-style pruned model: a context that exists only as a blank (in-place overwrite path of the trie builder, F8)
     open(os.path.join(d, "sri.arpa"), "w").write(
         "\\data\\\nngram 1=6\nngram 2=1\nngram 3=1\n\n\\1-grams:\n-1.0\t<unk>\n-1.0\t<s>\t-0.5\n-1.0\t</s>\n-1.0\ta\n-1.25\tb\n-1.5\tx\t-0.25\n\n"
@@ -569,6 +574,7 @@ def profile(tool, workdir):
     ks = {sc: set() for sc in TRACED}
     total = {sc: 0 for sc in TRACED}
     wide = {sc: 0 for sc in TRACED}        # process-wide number of calls on descriptors > 2
+    stdio_flush = set()                    # per-thread indices of write()s of one full stdio buffer on temporary files
     seqs = {}                              # (thread, file) -> [(per-thread index, process-wide index, offset)] of the preads on temporary files
     if os.path.exists(tr):
         for line in open(tr, errors="replace"):
@@ -586,6 +592,11 @@ def profile(tool, workdir):
                 wide[sc] += 1
             if data_call(sc, args, os.path.dirname(workdir)):       # inputs live beside the run directory, outputs and temporaries in it
                 ks[sc].add(c)
+            if sc == "write":
+                # a write of exactly one stdio buffer on a temporary file: a flush in the middle of an fwrite stream
+                mw = re.match(r"\d+<([^>]*)>(\(deleted\))?, .*, 4096\)", args)
+                if mw and (mw.group(2) or mw.group(1).startswith(os.path.join(workdir, "tmp"))):
+                    stdio_flush.add(c)
             if sc == "pread64":
                 mo = re.match(r"\d+<([^>]*)>(\(deleted\))?, .*, (\d+), (\d+)\)", args)
                 if mo and (mo.group(2) or mo.group(1).startswith(os.path.join(workdir, "tmp"))):
@@ -593,7 +604,7 @@ def profile(tool, workdir):
         os.remove(tr)
     # merge refills (MergeQueue::Entry::Read over several sorted runs of one file): the offsets a thread reads from one temporary
     # file jump back and forth between the runs; a single run is read with increasing offsets
-    refill = {"per_thread": set(), "wide": set()}
+    refill = {"per_thread": set(), "wide": set(), "stdio_flush": stdio_flush}
     for seq in seqs.values():
         if any(b[2] < a[2] for a, b in zip(seq, seq[1:])):
             refill["per_thread"].update(x[0] for x in seq)
@@ -628,6 +639,13 @@ def tool_specs(bins, d):
         Tool("filter-union-vocabfile", [bins["filter"], "union", "threads:1", "vocab:../bigvocab.txt", "out.arpa"], ["out.arpa"], stdin="../test.arpa"),
         Tool("filter-multiple-vocabfile", [bins["filter"], "multiple", "threads:1", "vocab:../bigvocab.txt", "out.arpa"],
              ["out.arpa0", "out.arpa1", "out.arpa2"], stdin="../test.arpa"),
+        # a trie build whose stdio temporary files exceed one stdio buffer: write()s issued in the middle of an fwrite
+        Tool("build_binary-trie-big4", [bins["build_binary"], "-T", "tmp/", "-S", "10M", "trie", "../big4.arpa", "out.bin"], ["out.bin"], binary="out.bin",
+             focus=("write", "read"), cap=36),
+        # phrase mode: the phrase vocabulary through std::istream, on stdin and from a file
+        Tool("filter-union-phrase-stdin", [bins["filter"], "union", "phrase", "threads:1", "model:../test.arpa", "out.arpa"], ["out.arpa"], stdin="../phrases.txt"),
+        Tool("filter-multiple-phrase-vocabfile", [bins["filter"], "multiple", "phrase", "threads:1", "vocab:../phrases.txt", "out.arpa"],
+             ["out.arpa0", "out.arpa1", "out.arpa2", "out.arpa3"], stdin="../test.arpa"),
         Tool("filter-single", [bins["filter"], "single", "threads:1", "model:../test.arpa", "out.arpa"], ["out.arpa"], stdin="../vocab.txt"),
         Tool("filter-raw", [bins["filter"], "single", "raw", "threads:1", "model:../corpus1.txt", "out.txt"], ["out.txt"], stdin="../vocab.txt"),
         # compressed input arriving through a pipe (not mmap-able: ReadFactory sniffs the format from read()s) and as a file
@@ -651,7 +669,7 @@ def fresh_dir(base, name):
     return p
 
 
-def choose_ks(ks, cap, rng, must=()):
+def choose_ks(ks, cap, rng, must=(), must_share=3):
     """all of them up to the cap; otherwise a stratified sample over the WHOLE range of call indices: the first few (set-up phase),
     the last two, one random index from each of the remaining equal strata, and at least a third of the cap from `must`
     (a class of calls that has to be represented, e.g. the merge-phase refills)"""
@@ -660,7 +678,7 @@ def choose_ks(ks, cap, rng, must=()):
         return ks
     picked = ks[:3] + ks[-2:]
     mustl = [k for k in ks if k in must and k not in picked]
-    want = min(len(mustl), max(2, cap // 3))
+    want = min(len(mustl), max(2, cap // must_share))
     for i in range(want):
         lo, hi = i * len(mustl) // want, (i + 1) * len(mustl) // want
         picked.append(mustl[lo + rng.below(max(1, hi - lo))])
@@ -683,14 +701,35 @@ def prepare_interpolate_inputs(bins, base):
             raise vlib.InfraError("cannot prepare interpolate inputs (lmplz --intermediate rc=%d)" % rc)
 
 
+def prepare_big_trie_input(bins, base):
+    """an order-4 model with enough n-grams that every stdio temporary file of the trie builder exceeds one stdio buffer (so that
+    write()s happen in the middle of fwrite, not only at the flush before re-reading), 3-gram back-offs omitted (legal: they default
+    to 0) so that the context files decide the "has extensions" markers"""
+    w = fresh_dir(base, "prep-big4")
+    rc = run_cmd([bins["lmplz"], "-o", "4", "-S", "20M", "--vocab_estimate", "4000", "--discount_fallback", "-T", "tmp/",
+                  "--text", "../corpus4.txt", "--arpa", "../big4.full.arpa"], w)
+    if rc != 0:
+        raise vlib.InfraError("cannot prepare the order-4 model (lmplz rc=%d)" % rc)
+    section = None
+    with open(os.path.join(base, "big4.arpa"), "w") as out:
+        for line in open(os.path.join(base, "big4.full.arpa")):
+            if line.startswith("\\") and "-grams:" in line:
+                section = line[1]
+            f = line.rstrip("\n").split("\t")
+            if section == "3" and len(f) == 3:
+                line = f[0] + "\t" + f[1] + "\n"
+            out.write(line)
+    os.remove(os.path.join(base, "big4.full.arpa"))
+
+
 def tool_level(ctx, shim):
     bins = {t: vlib.tool(t) for t in ("lmplz", "build_binary", "filter", "interpolate")}
     base = os.path.join(ctx.scratch, "tools")
     os.makedirs(base, exist_ok=True)
     make_inputs(ctx, base)
     prepare_interpolate_inputs(bins, base)
+    prepare_big_trie_input(bins, base)
     specs = tool_specs(bins, base)
-    cap = ctx.pick(12, 10 ** 9)
     DOMAIN = ["ENOSPC", "EIO", "ENOMEM"]          # the property's errno domain, for every kind of call
 
     def errnos_for(sc, chosen):
@@ -709,7 +748,7 @@ def tool_level(ctx, shim):
     base_wall = {}
     errno_cover = {}
     stats = {"runs": 0, "nonzero": 0, "exit0_identical": 0, "signal": 0, "timeouts": 0, "complete_identical_after_failure": 0,
-             "per_tool": {}, "injection_points_total": {}, "merge_refill_fault_points": {}}
+             "per_tool": {}, "injection_points_total": {}, "merge_refill_fault_points": {}, "stdio_midstream_flush_points": {}}
     for t in specs:
         w = fresh_dir(base, t.name + ".base")
         rc = run_cmd(t.argv, w, t.stdin, t.stdout)
@@ -732,7 +771,11 @@ def tool_level(ctx, shim):
         for sc in TRACED:
             if ctx.quick and t.focus and sc not in t.focus:
                 continue
-            chosen = choose_ks(ks[sc], cap, ctx.rng, must=refill["per_thread"] if sc == "pread64" else ())
+            cap = ctx.pick(t.cap or 12, 10 ** 9)
+            chosen = choose_ks(ks[sc], cap, ctx.rng, must=refill["per_thread"] if sc == "pread64" else refill["stdio_flush"] if sc == "write" else (),
+                               must_share=2 if sc == "write" else 3)
+            if sc == "write" and refill["stdio_flush"]:
+                stats["stdio_midstream_flush_points"][t.name] = {"points": len(refill["stdio_flush"]), "injected": len([k for k in chosen if k in refill["stdio_flush"]])}
             for k, errs in errnos_for(sc, chosen).items():
                 if sc == "pread64" and k in refill["per_thread"]:
                     nref["injected"] += 1
@@ -1026,6 +1069,7 @@ def replay(ctx, obj):
         ctx.rng = vlib.Rng(obj.get("seed", 1))
         make_inputs(ctx, base)
         prepare_interpolate_inputs(bins, base)
+        prepare_big_trie_input(bins, base)
         t = [s for s in tool_specs(bins, base) if s.name == r["tool"]][0]
         w = fresh_dir(base, "base")
         rc0 = run_cmd(t.argv, w, t.stdin, t.stdout)
